@@ -429,10 +429,16 @@ def run_type(acc, c):
 
 
 # ------------------------------------------------------------------ family: constants
+class RealLit(Fraction):
+    """an explicit Real(...) constant whose value is integral (must stay a real constant)"""
+
+
 CONSTS = [
     0, 1, -1, 7, 2**31, 2**53 + 1, 2**63 - 1, -(2**63), 2**64, 10**30,
     Fraction(1, 2), Fraction(-3, 2), Fraction(10**18 + 1, 3), Fraction(1, 10**18), Fraction(-(2**70), 7),
+    RealLit(6), RealLit(-4), RealLit(0),
 ]
+REALLIT_POS = ("default-value", "initial-value", "effect-value", "increase-value", "condition", "goal")
 CONST_POS = [
     "default-value", "initial-value", "effect-value", "increase-value", "condition", "goal", "duration", "timing-delay",
     "timed-effect-delay", "timed-goal-delay", "action-cost", "oversubscription-weight", "temporal-oversubscription-weight",
@@ -450,20 +456,25 @@ def build_const_case(ci, pos):
     f = up.model.Fluent("f", nt, None, env)
     plan = None
     o1 = pb.object("o1")
+    vx = v
+    if isinstance(v, RealLit):
+        if pos not in REALLIT_POS:
+            return None, None
+        vx = em.Real(Fraction(v))
     if pos == "default-value":
-        pb.add_fluent(f, default_initial_value=v)
+        pb.add_fluent(f, default_initial_value=vx)
         return pb, None
     pb.add_fluent(f, default_initial_value=0)
     if pos == "initial-value":
-        pb.set_initial_value(f, v)
+        pb.set_initial_value(f, vx)
     elif pos == "effect-value":
-        a.add_effect(f, v)
+        a.add_effect(f, vx)
     elif pos == "increase-value":
-        a.add_increase_effect(f, v)
+        a.add_increase_effect(f, vx)
     elif pos == "condition":
-        a.add_precondition(em.LE(f, v))
+        a.add_precondition(em.LE(f, vx))
     elif pos == "goal":
-        pb.add_goal(em.Equals(em.Plus(f, v), 3))
+        pb.add_goal(em.Equals(em.Plus(f, vx), 3))
     elif pos in ("duration", "timing-delay", "ttp-start", "ttp-duration"):
         d = up.model.DurativeAction("d", OrderedDict(), env)
         if pos == "duration":
